@@ -346,6 +346,7 @@ pub fn table_serde(dir: &str, _tier: &str, _seed: u64, per: usize) -> (usize, u6
 
 pub fn run(args: &[String]) {
     crate::alloc::silence_panics();
+    crate::chunks::set_table("serde");
     let (chunks, rows) = table_serde(&args[0], args[1].as_str(), args[2].parse().unwrap(), args[3].parse().unwrap());
     println!("{{\"chunks\":{chunks},\"rows\":{rows}}}");
 }
